@@ -16,7 +16,7 @@ if os.path.exists(p):
 hooks_commits = []
 try:
     import subprocess
-    out = subprocess.run("git -C /repo log --format=%H%x09%s", shell=True, stdout=subprocess.PIPE).stdout.decode()
+    out = subprocess.run("git -C %s log --format=%%H%%x09%%s" % os.environ.get("VERIF_REPO", "/repo"), shell=True, stdout=subprocess.PIPE).stdout.decode()
     for line in out.split("\n"):
         if "\t" in line:
             h, s = line.split("\t", 1)
@@ -24,6 +24,30 @@ try:
                 hooks_commits.append(h)
 except Exception:
     pass
+# known_findings.jsonl = concatenation of known_findings.d/Cxx.jsonl (development-time only; the
+# checks read the committed file and never write it).  `fixed:` lines name the fix commit by a
+# prefix of its subject in braces; it is resolved to the commit hash in /repo here.
+import subprocess, re
+subjects = []
+out = subprocess.run("git -C %s log --format=%%h%%x09%%s" % os.environ.get("VERIF_REPO", "/repo"), shell=True, stdout=subprocess.PIPE).stdout.decode()
+for line in out.split("\n"):
+    if "\t" in line:
+        subjects.append(tuple(line.split("\t", 1)))
+lines = []
+for f in sorted(glob.glob(os.path.join(V, "known_findings.d", "C*.jsonl"))):
+    for line in open(f):
+        line = line.rstrip("\n")
+        if not line.strip():
+            continue
+        m = re.match(r"(fixed: property=\S+ )\{([^}]*)\}(.*)", line)
+        if m:
+            hs = [h for h, sub in subjects if sub.startswith(m.group(2))]
+            if not hs:
+                print("WARNING: no commit in /repo with subject prefix %r" % m.group(2))
+            line = m.group(1) + (hs[0] if hs else "UNRESOLVED") + m.group(3)
+        lines.append(line)
+open(os.path.join(V, "known_findings.jsonl"), "w").write("\n".join(lines) + "\n")
+
 checks = []
 for i in ids:
     if i not in metas:
